@@ -29,6 +29,9 @@
 (*   ElideDelParent   explicit delete equal to the enclosing entry dropped   *)
 (*                    (differs once `!prev` moves the node elsewhere)        *)
 (*   ElideNewDefault  explicit allow_new = True dropped (`!notnew{x: !new}`)*)
+(*   ElideNewParent   explicit allow_new equal to the enclosing entry dropped*)
+(*                    (`!extend{{'allow_new': False}} [ !notnew {..} ]`: the *)
+(*                    enclosing node is replaced by a plain list at premerge)*)
 (*   ElideSafeDefault explicit safe equal to the source's default dropped   *)
 (*   ElideSafeParent  explicit safe equal to the enclosing entry dropped    *)
 (*   PlainTagNotPushed a flag written as a plain tag is not pushed: the      *)
@@ -45,7 +48,7 @@
 (***************************************************************************)
 EXTENDS AyMerge
 
-AllDeviations == {"ElideDelDefault", "ElideDelParent", "ElideNewDefault", "ElideSafeDefault", "ElideSafeParent",
+AllDeviations == {"ElideDelDefault", "ElideDelParent", "ElideNewDefault", "ElideNewParent", "ElideSafeDefault", "ElideSafeParent",
                   "PlainTagNotPushed", "SafeTagTrue", "NullDropsFlags", "ClearNoValue", "PathNoRefWraps", "ReprQuoting"}
 
 NullAtom == <<"n", "">>
@@ -54,8 +57,9 @@ BasicKinds == {"dict", "list", "scalar"}
 \* yaml.py:526-529: the node class has a tag of its own, or the value is None
 HasKindTag(n) == n.k \notin BasicKinds \/ IsNullNode(n)
 
-\* the dumper's stack entry: the flags an enclosing container has WRITTEN in
-\* encoded form (absent = None = "N" / PrNone)
+\* the dumper's stack entry: the flags the enclosing containers have written
+\* (as the code is: only those written in ENCODED form, see `push` below);
+\* absent = None = "N" / PrNone
 Stack0 == [pr |-> PrNone, del |-> "N", anew |-> "N", safe |-> "N"]
 
 ----------------------------------------------------------------------------
@@ -79,10 +83,13 @@ KeepDel(n, st, dev) ==
     ELSE IF "ElideDelParent" \in dev /\ n.del = st.del THEN "N"
     ELSE n.del
 
-\* allow_new: equal to the enclosing entry may go (the child inherits exactly
-\* that); equal to the default True may NOT (it overrides an inherited False)
+\* allow_new.  Intended: always written: the default True overrides an
+\* inherited False, and a value equal to the enclosing entry is only inherited
+\* while that node stays the parent (`!append` / `!extend` hand their elements
+\* to a fresh plain list at premerge, `!prev` moves nodes).
 KeepNew(n, st, dev) ==
-    IF n.anew = "N" \/ n.anew = st.anew THEN "N"
+    IF n.anew = "N" THEN "N"
+    ELSE IF "ElideNewParent" \in dev /\ n.anew = st.anew THEN "N"
     ELSE IF "ElideNewDefault" \in dev /\ n.anew = "T" THEN "N"
     ELSE n.anew
 
@@ -201,20 +208,21 @@ RECURSIVE CopyT(_)
 CopyT(n) == [n EXCEPT !.ch = [i \in 1..Len(n.ch) |->
                 <<n.ch[i][1], Adopt(CopyT(n.ch[i][2]), ChildKw(n), FALSE, PrNone)>>]]
 
-RECURSIVE MergeObsEq(_, _), SafeObsEq(_, _)
+RECURSIVE MergeObsEq(_, _), SafeObsEq(_, _, _)
 MergeObsEq(a, b) ==
     \/ a = b
     \/ /\ KindClass(a.k) = KindClass(b.k) /\ a.v = b.v /\ a.fn = b.fn /\ a.ref = b.ref /\ a.md = b.md
        /\ EffPr(a) = EffPr(b) /\ Len(a.ch) = Len(b.ch)
        /\ \A i \in 1..Len(a.ch) : a.ch[i][1] = b.ch[i][1] /\ MergeObsEq(a.ch[i][2], b.ch[i][2])
-\* on two copies of equal shape
-SafeObsEq(a, b) ==
+\* on two copies of equal shape; `under`: below a function node, whose arguments are
+\* evaluated with require_all_safe (call.py:60, bind.py:84, eval_context.py:132)
+SafeObsEq(a, b, under) ==
     \/ a = b
-    \/ /\ (a.k \in SafeKinds => EffSafe(a) = EffSafe(b))
+    \/ /\ ((under \/ a.k \in SafeKinds) => EffSafe(a) = EffSafe(b))
        /\ (IsComposed(a) => (ChildKw(a).isafe # "F") = (ChildKw(b).isafe # "F"))
-       /\ \A i \in 1..Len(a.ch) : SafeObsEq(a.ch[i][2], b.ch[i][2])
+       /\ \A i \in 1..Len(a.ch) : SafeObsEq(a.ch[i][2], b.ch[i][2], under \/ IsFn(a))
 
-ObsEq(a, b) == a = b \/ (MergeObsEq(a, b) /\ SafeObsEq(CopyT(a), CopyT(b)))
+ObsEq(a, b) == a = b \/ (MergeObsEq(a, b) /\ SafeObsEq(CopyT(a), CopyT(b), FALSE))
 ObsREq(x, y) == IF IsErr(x) \/ IsErr(y) THEN IsErr(x) /\ IsErr(y) /\ x.err = y.err ELSE ObsEq(x, y)
 
 RECURSIVE DataD(_), MdTree(_)
